@@ -171,24 +171,28 @@ func cmp(x, y interface{}) int {
 	panic("pred: cmp")
 }
 
-// Like implements SQL LIKE on lower-case ASCII (generators never emit upper case,
-// so SQLite's case-insensitive LIKE cannot disagree).
+// Like implements SQLite's LIKE: ASCII letters match regardless of case (row values may hold upper-case
+// letters, so LIKE and = disagree on them: a LIKE without wildcard is not an equality).
 func Like(s, p string) bool {
+	return like(strings.ToLower(s), strings.ToLower(p))
+}
+
+func like(s, p string) bool {
 	if p == "" {
 		return s == ""
 	}
 	switch p[0] {
 	case '%':
 		for i := 0; i <= len(s); i++ {
-			if Like(s[i:], p[1:]) {
+			if like(s[i:], p[1:]) {
 				return true
 			}
 		}
 		return false
 	case '_':
-		return len(s) > 0 && Like(s[1:], p[1:])
+		return len(s) > 0 && like(s[1:], p[1:])
 	}
-	return len(s) > 0 && s[0] == p[0] && Like(s[1:], p[1:])
+	return len(s) > 0 && s[0] == p[0] && like(s[1:], p[1:])
 }
 
 // Eval evaluates the tree on a row in SQL's three-valued logic.
@@ -284,17 +288,20 @@ func (n *Node) Select(rows []Row) []int64 {
 
 var StrPool = []string{"ab", "abc", "b", "ba", "", "c"}
 
+// RowStrPool: what rows hold; the upper-case variants equal a condition value only under LIKE
+var RowStrPool = []string{"ab", "abc", "b", "ba", "", "c", "Ab", "B", "aB"}
+
 func RandTable(r *core.Rand, maxRows int) []Row {
 	n := r.Intn(maxRows + 1)
 	rows := make([]Row, n)
 	for i := range rows {
-		rows[i] = Row{ID: int64(i + 1), A: int64(r.Intn(4)), S: core.Pick(r, StrPool), Mark: 0}
+		rows[i] = Row{ID: int64(i + 1), A: int64(r.Intn(4)), S: core.Pick(r, RowStrPool), Mark: 0}
 		if r.Chance(2, 3) {
 			v := int64(r.Intn(4))
 			rows[i].B = &v
 		}
 		if r.Chance(2, 3) {
-			v := core.Pick(r, StrPool)
+			v := core.Pick(r, RowStrPool)
 			rows[i].T = &v
 		}
 	}
